@@ -8,21 +8,21 @@ import (
 )
 
 // VerifDispatchHeight performs, for one new block height, the fan-out that the
-// dispatcher goroutine of StartWatchingTxs performs (it reads observerLoopList
-// the same way, without taking the watcher lock, and offers the height to every
-// observation loop), but without the 500 ms poll / 100 ms sleep, and with the
+// dispatcher goroutine of StartWatchingTxs performs (it obtains the loops'
+// channels the same way, through observerBlockChans, and offers the height to
+// every observation loop), but without the 500 ms poll / 100 ms sleep, and with the
 // channel sends done by the calling goroutine: a loop that does not take the
 // height within `wait` is skipped (in production that sender goroutine would
 // stay blocked). It returns the number of loops that took the height.
 // It does not call HandleCsvTx.
 func (s *BlockchainRpcTxWatcher) VerifDispatchHeight(nb uint64, wait time.Duration) int {
 	taken := 0
-	for _, obs := range s.observerLoopList {
+	for _, blockChan := range s.observerBlockChans() {
 		deadline := time.Now().Add(wait)
 		for {
 			sent := false
 			select {
-			case obs.blockChan <- uint32(nb):
+			case blockChan <- uint32(nb):
 				sent = true
 			default:
 			}
